@@ -198,16 +198,16 @@ Example C09_qos2_duplicate_history :
 Proof. split; [exact qos2_duplicate_recognised_now|exact qos2_duplicate_accepted_old_code]. Qed.
 
 (* non-vacuity: a history with two clients, (un)subscriptions, QoS 1/2 publishes to an online and
-   an offline subscriber, acknowledgements and a reconnection produces a 22 command journal;
-   cut after 17 commands the recovered broker has both sessions and the first subscription *)
+   an offline subscriber, acknowledgements and a reconnection produces an 18 command journal;
+   cut after 13 commands the recovered broker has both sessions and the first subscription *)
 Definition ex_hist : list bevent :=
   [EConnect C1 true 3600 []; EConnect C2 true 3600 []; ESubscribe C2 10 [sub_a];
    EPublish C1 1 20 TA PM; EPoll C2 [1%N]; EPuback C2 1;
    EClose C2; EPublish C1 2 21 TA PM; EPubrel C1 21; EConnect C2 false 3600 [2%N]; EPubrec C2 2; EPubcomp C2 2;
    EUnsubscribe C2 11 [TA]].
 Example C09_nonvacuous :
-  length (jcmds (journal cur_code ex_hist)) = 22%nat /\
-  (match recover cur_code (exec_all [] (firstn 17 (jcmds (journal cur_code ex_hist)))) with
+  length (jcmds (journal cur_code ex_hist)) = 18%nat /\
+  (match recover cur_code (exec_all [] (firstn 13 (jcmds (journal cur_code ex_hist)))) with
    | Some b => (map fst (b_clients b), bs_entries (b_subs b))
    | None => ([], [])
    end) = ([C1; C2], [(C2, sub_a)]).
